@@ -174,4 +174,9 @@ example : (applyReplyMembers {} (.cons (str "continues") (.bool true) .nil)).map
     correspondence streams for an input on which the changed code violates the property. -/
 theorem modelled_code_unchanged : Varlink.Extracted.code_C11 = Varlink.ExpectedCode.code_C11 := by decide
 
+/-- no declaration (function, method, type, constant, variable) has been added to or removed from the
+    fingerprinted source files since the models were validated: a new method or `init` can change behaviour
+    without touching the text of any existing declaration -/
+theorem declarations_known : Varlink.Extracted.declarationSet = Varlink.ExpectedCode.declarationSet := by decide
+
 end Varlink.C11
